@@ -168,3 +168,47 @@ Check (C12_handle_progress :
 Check (C12_quiescence_is_a_schedule :
   forall (c : cfg) (hs : list (list bool)) (xs : list action),
     exists ts, arun c 0 (init hs) xs = final c hs ts).
+From Coq Require Import List NArith Bool.
+From V.C12 Require Import Start StartProofs.
+Import ListNotations.
+Open Scope N_scope.
+From V.C12 Require Import StartProperties.
+Check (C12_start_invariant :
+  forall (auto : bool) (l : list op), Inv (final true auto l)).
+Check (C12_start_inbound_clean :
+  forall (auto : bool) (l : list op) (t : task), In t (tasks (final true auto l)) ->
+    exists h, s_hs (t_in t) = [h] /\ s_cn (t_in t) = t_fwd t /\
+              s_hist (t_in t) = h :: t_fwd t ++ s_wire (t_in t) /\ s_out (t_in t) = [LOCAL_HS]).
+Check (C12_start_outbound_clean :
+  forall (auto : bool) (l : list op) (t : task), In t (tasks (final true auto l)) ->
+    exists h q, s_out (t_out t) = LOCAL_HS :: q /\ s_ohs (t_out t) = 1 /\ s_hs (t_out t) = [h] /\
+                s_hist (t_out t) = h :: s_wire (t_out t)).
+Check (C12_start_first_forwarded_is_first_sent :
+  forall (auto : bool) (l : list op) (t : task) (H : frame) (ns : list frame),
+    In t (tasks (final true auto l)) -> s_hist (t_in t) = H :: ns ->
+    s_hs (t_in t) = [H] /\ prefix (t_fwd t) ns).
+Check (C12_start_end_to_end :
+  forall (autoa autob : bool) (la lb : list op) (ta tb : task),
+    In ta (tasks (final true autoa la)) -> In tb (tasks (final true autob lb)) ->
+    prefix (s_hist (t_in tb)) (s_out (t_out ta)) ->
+    exists q, s_out (t_out ta) = LOCAL_HS :: q /\ s_hs (t_in tb) = [LOCAL_HS] /\ prefix (t_fwd tb) q).
+Check (C12_start_validated_handshake :
+  forall (auto : bool) (l : list op) (p : peer) (d : bool) (o : outb) (y : sub) (h : frame),
+    ps (final true auto l) p = Some (Validating d o (IValidating y h)) ->
+    s_hs y = [h] /\ s_hist y = h :: s_wire y).
+Check (C12_start_ready_belongs :
+  forall (auto : bool) (l : list op) (p : peer) (o : bool) (h : frame),
+    In (p, o, h) (ready (final true auto l)) ->
+    exists e, hget (final true auto l) p o = Some e /\ (s_hs (e_sub e) = [h] \/ (o = false /\ h = EMPTY))).
+Check (C12_start_stale_ready_refuted :
+  user_events false w_stale_in =
+    [UFail 0 E_REJECTED; UValidate 0 100; UOpened 0 false 200; UNotif 0 101; UNotif 0 7] /\
+  task_view false w_stale_in = [([101; 7], [], [101; 7])]).
+Check (C12_start_stale_ready_sender_refuted :
+  map (fun t => (s_out (t_out t), s_hs (t_out t))) (tasks (final false false w_stale_out)) = [([9], [])] /\
+  In (UOpened 0 true 200) (user_events false w_stale_out)).
+Check (C12_start_witnesses_repaired :
+  (user_events true w_stale_in = [UFail 0 E_REJECTED; UValidate 0 101; UOpened 0 false 200; UNotif 0 7] /\
+   task_view true w_stale_in = [([101; 7], [101], [7])]) /\
+  (map (fun t => (s_out (t_out t), s_hs (t_out t))) (tasks (final true false w_stale_out)) = [([LOCAL_HS; 9], [201])] /\
+   In (UOpened 0 true 201) (user_events true w_stale_out))).
